@@ -179,9 +179,12 @@ fn run(input: RunInput) -> ScenFuture {
         let results = results.lock().unwrap().clone();
         let seen = h.seen();
         let q_ns = 1_000_000u64;
-        // strict: one-way latency for the STOP_SENDING/RESET_STREAM frame, plus up to one round trip
-        // that quinn's pacer may hold it back right after a burst, plus timer quanta
-        let bound_ns = if !strict_timing { (idle_ms + ka_ms) * 1_000_000 } else { 4 * lat_max * 1000 + 5 * q_ns };
+        // strict: one-way latency for the STOP_SENDING/RESET_STREAM frame, plus what the transport
+        // may legitimately hold it back: the frame is congestion-controlled like any other, so
+        // with many calls in flight it can wait for a round trip of acknowledgements to open the
+        // congestion window and then for the pacer (up to 0.8 RTT); four round trips in total
+        // is still two orders of magnitude below the idle timeout
+        let bound_ns = if !strict_timing { (idle_ms + ka_ms) * 1_000_000 } else { 8 * lat_max * 1000 + 10 * q_ns };
         let mut running_abandons = 0u64;
         for c in &calls {
             let res = &results[c.nonce as usize];
